@@ -95,7 +95,12 @@ KNOWN = [
 
 def cases_for(rng, tier):
     n = 1200 if tier == "quick" else 30000
-    return [{"sb": rng.choice([0, 2, 3]), "ops": one_history(rng)} for _ in range(n)]
+    cases = [{"sb": rng.choice([0, 2, 3]), "ops": one_history(rng)} for _ in range(n)]
+    # hard links to an object of each kind (incl. dense groups) that has a neighbour allocated right behind it: the file must open
+    # and the tree must be the one built (found at another seed: /repo 18bfe7a)
+    for _ in range(80 if tier == "quick" else 2000):
+        cases.append({"sb": rng.choice([0, 2, 3]), "ops": histgen.gen_grow_with_neighbour(rng, attrs=False)})
+    return cases
 
 
 def run(ctx):
